@@ -398,9 +398,17 @@ func c32Key(s *c32State) string {
 	return b.String()
 }
 
+// c32Narrow is a reduced alphabet used for the deep pass (long enough to recycle every bucket of the ring).
+func c32Narrow() []c32Ev {
+	return []c32Ev{{Op: "add", Key: 1, Cls: "now-2"}, {Op: "add", Key: 1, Cls: "now"}, {Op: "add", Key: 2, Cls: "head"}, {Op: "roll"}, {Op: "rollnil"}, {Op: "emit"}}
+}
+
 func c32Spec(g c32Cfg, depth int, tree bool) *hbfs.Spec[*c32State, c32Ev] {
-	evs := c32Events(g)
-	mode := "graph"
+	return c32SpecEv(g, depth, tree, c32Events(g), "")
+}
+
+func c32SpecEv(g c32Cfg, depth int, tree bool, evs []c32Ev, tag string) *hbfs.Spec[*c32State, c32Ev] {
+	mode := "graph" + tag
 	if tree {
 		mode = "tree"
 	}
@@ -487,5 +495,9 @@ func TestVerif_C32(t *testing.T) {
 			hbfs.Explore(c, c32Spec(g, depth, false))
 		}
 		hbfs.Explore(c, c32Spec(c32Configs(c)[0], c.Pick(3, 4), true))
+		// deep pass with a 6-event alphabet: enough rollovers to recycle every bucket and revisit emitted windows
+		if c.Thorough() {
+			hbfs.Explore(c, c32SpecEv(c32Configs(c)[0], 9, false, c32Narrow(), "-deep"))
+		}
 	})
 }
